@@ -926,6 +926,7 @@ Plan gen_vm_plan(const std::string &prop, Rng &rng, long long sub, const std::st
     heavy = true;
   } else if (prop == "C19") {
     gp.call_heavy = true;
+    gp.stop_in_callee = rng.chance(1, 3);
     if (gp.max_defs < 1) gp.max_defs = 1;
   } else if (prop == "C20") {
     gp.boundary_values = true;
